@@ -137,16 +137,16 @@ def _check(case):
 
 
 def _short_tuple(src):
-    """the expression contains a tuple of zero or one element that is displayed (known finding KF-C15-one-tuple),
+    """the expression contains a tuple of one element that is displayed (known finding KF-C15-one-tuple),
     and the disagreement disappears once those tuples are given a second element"""
     t = ast.parse(src, mode='eval').body
-    if not any(isinstance(n, ast.Tuple) and len(n.elts) <= 1 for n in ast.walk(t)):
+    if not any(isinstance(n, ast.Tuple) and len(n.elts) == 1 for n in ast.walk(t)):
         return False
 
     class Pad(ast.NodeTransformer):
         def visit_Tuple(self, node):
             self.generic_visit(node)
-            while len(node.elts) < 2:
+            while len(node.elts) == 1:
                 node.elts.append(ast.Name(id='pad_', ctx=ast.Load()))
             return node
     padded = ast.unparse(ast.fix_missing_locations(Pad().visit(t)))
